@@ -3,6 +3,7 @@
 // The mechanical scan (`vf scan`) lists each `external_body` / `assume_specification` / `axiom` by name.
 // ================================================================================================
 #![feature(allocator_api)]
+#![feature(sized_hierarchy)]
 #![allow(unused_imports, unused_variables, dead_code, unused_mut, unused_assignments, non_snake_case, unused_parens, unreachable_code, unreachable_patterns)]
 use vstd::prelude::*;
 use vstd::std_specs::cmp::PartialEqSpec;
@@ -132,6 +133,16 @@ pub fn drain_map(m: &mut TaskMap) -> (r: Vec<(String, String)>)
 // ---- A4: std helpers vstd lacks ----------------------------------------------------------------------
 pub assume_specification<T: Clone>[ <[T]>::to_vec ](s: &[T]) -> (r: Vec<T>)
     ensures r@ == s@;
+pub assume_specification<T, A: std::alloc::Allocator>[ <std::vec::Vec<T, A> as std::convert::AsRef<[T]>>::as_ref ](v: &std::vec::Vec<T, A>) -> (r: &[T])
+    ensures r@ == v@;
+pub assume_specification<T, A: std::alloc::Allocator>[ <std::vec::Vec<T, A> as std::convert::AsMut<[T]>>::as_mut ](v: &mut std::vec::Vec<T, A>) -> (r: &mut [T])
+    ensures r@ == old(v)@, final(r)@ == final(v)@;
+// the AsRef trait itself (generic callers): callable, result unspecified (TRUSTED only in that it does not panic)
+#[verifier::external_trait_specification]
+pub trait ExAsRef<T: core::marker::PointeeSized>: core::marker::PointeeSized {
+    type ExternalTraitSpecificationFor: core::convert::AsRef<T> + core::marker::PointeeSized;
+    fn as_ref(&self) -> (r: &T);
+}
 pub assume_specification<T>[ <[T]>::reverse ](s: &mut [T])
     ensures final(s)@ == old(s)@.reverse();
 pub assume_specification<'a, T: PartialEq<U>, U, A: std::alloc::Allocator>[ <&'a [T] as PartialEq<Vec<U, A>>>::eq ](a: &&'a [T], b: &Vec<U, A>) -> (r: bool)
@@ -154,3 +165,6 @@ pub mod anyhow {
     pub struct Error { e: () }
     }
 }
+/// rule R21: `.map_err(|e| anyhow::anyhow!(..))` only decorates the error value
+#[verifier::external_body]
+pub fn opaque_anyhow<E>(e: E) -> anyhow::Error { unimplemented!() }
